@@ -718,6 +718,12 @@ class MayRaise:
             if q not in self.m.classes and q not in BUILTIN_EXC_PARENTS:
                 q = "Other"
             prov = "-"
+            if fi.module != "sansldap.asn1":
+                from .anchors import is_incomplete
+                if is_incomplete(self.m, q):
+                    # "not all of the value has arrived" announced by code outside the reader primitives: it does not speak for any
+                    # reader's untouched input (the decoders have consumed the envelope by the time they can tell)
+                    prov = "derived"
             out.add(Esc(q, fi.qualname, norm(s)[:120], s.lineno, "explicit", prov))
             return out
         if isinstance(s, (ast.FunctionDef, ast.AsyncFunctionDef, ast.ClassDef, ast.Import, ast.ImportFrom, ast.Pass, ast.Break, ast.Continue, ast.Global, ast.Nonlocal)):
@@ -847,6 +853,10 @@ class MayRaise:
             esc = self.none_operand_check(e, ctx)
             if esc:
                 out.add(esc)
+            if isinstance(e.op, (ast.LShift, ast.RShift)) and const_int(e.right) is None:
+                esc = self.shift_count_check(e, ctx)
+                if esc:
+                    out.add(esc)
         for ch in ast.iter_child_nodes(e):
             if isinstance(ch, ast.FormattedValue):
                 out |= self.expr_escapes(ch.value, ctx)
@@ -856,6 +866,66 @@ class MayRaise:
             elif isinstance(ch, ast.keyword):
                 out |= self.expr_escapes(ch.value, ctx)
         return out
+
+    # -- a shift by a negative count raises ValueError
+    def shift_count_check(self, e: ast.BinOp, ctx) -> Optional[Esc]:
+        fi: FuncInfo = ctx["fi"]
+        facts = self.facts(e, ctx)
+        cnt = e.right
+
+        def comp_range_nonneg(name: str) -> bool:
+            """name is the target of a comprehension / for over range(...) that only yields non-negative numbers"""
+            node = fi.node.body if isinstance(fi.node, ast.Lambda) else fi.node
+            for x in ast.walk(node):
+                gens = x.generators if isinstance(x, (ast.ListComp, ast.GeneratorExp, ast.SetComp, ast.DictComp)) else []
+                for g in gens:
+                    if isinstance(g.target, ast.Name) and g.target.id == name and isinstance(g.iter, ast.Call) and isinstance(g.iter.func, ast.Name) and g.iter.func.id == "range":
+                        a = g.iter.args
+                        if len(a) == 1:
+                            return True
+                        step = const_int(a[2]) if len(a) == 3 else 1
+                        if step is None:
+                            return False
+                        if step > 0:
+                            lo = self.ival(a[0], frozenset(), fi)[0]
+                            return lo >= 0
+                        stop = const_int(a[1])
+                        return stop is not None and stop >= -1
+            return False
+
+        def nonneg(x: ast.expr) -> bool:
+            ci = const_int(x)
+            if ci is not None:
+                return ci >= 0
+            lo, _hi = self.ival(x, facts, fi)
+            if lo >= 0:
+                return True
+            if isinstance(x, ast.Name):
+                return ("GE0", x.id) in facts or comp_range_nonneg(x.id)
+            if isinstance(x, ast.BinOp) and isinstance(x.op, (ast.Mult, ast.Add)):
+                return nonneg(x.left) and nonneg(x.right)
+            if isinstance(x, ast.BinOp) and isinstance(x.op, ast.Sub):
+                # V - a - b ...: one subtrahend i with  i < V  (or i <= V) known, the others literals
+                subs = []
+                cur = x
+                while isinstance(cur, ast.BinOp) and isinstance(cur.op, ast.Sub):
+                    subs.append(cur.right)
+                    cur = cur.left
+                if isinstance(cur, ast.Name):
+                    names = [s_ for s_ in subs if isinstance(s_, ast.Name)]
+                    consts = [const_int(s_) for s_ in subs if not isinstance(s_, ast.Name)]
+                    if len(names) == 1 and all(c is not None for c in consts):
+                        i, total = names[0].id, sum(consts)
+                        if any(f[0] == "LT" and f[1] == i and f[2] == cur.id for f in facts) and total <= 1:
+                            return True
+                        if any(f[0] == "LE" and f[1] == i and f[2] == cur.id for f in facts) and total <= 0:
+                            return True
+                    if not names and all(c is not None for c in consts):
+                        lo2, _ = self.ival(cur, facts, fi)
+                        return lo2 - sum(consts) >= 0
+            return False
+        ok = nonneg(cnt)
+        return self.site(ctx, e, "shift-count", "ValueError", ok, f"shift count `{norm(cnt)[:40]}` is not known to be non-negative")
 
     # -- arithmetic on a possibly-None operand
     def none_operand_check(self, e: ast.BinOp, ctx) -> Optional[Esc]:
